@@ -24,6 +24,8 @@ static void sq_UCMU(const void* U, const void* Mx){ lg(K_UCMU,U,Mx,0); }
 static void sq_IUCMU(const void* U, const void* Mx){ lg(K_IUCMU,U,Mx,0); }
 static void su_ctor_matrix(struct SU_vector* ret, const void* m){ lg(K_CTOR_M,ret,m,0); }
 #define MPTR(h) ((const void*)(h))
+static void UTransform_em(const struct SU_vector* self, struct SU_vector* ret, gsl_matrix_complex* em);
+static void UDaggerTransform_em(const struct SU_vector* self, struct SU_vector* ret, gsl_matrix_complex* em);
 static void Rotate_U(const struct SU_vector* self, struct SU_vector* ret, const gsl_matrix_complex* U){
 //@BODY file=src/SUNalg.cpp sig=/SU_vector\s+SU_vector::Rotate\s*\(\s*const\s+gsl_matrix_complex\s*\*\s*U\s*\)\s*const/ rules=common,holders,suwrap
 }
